@@ -85,6 +85,22 @@ Proof.
   - injection H as <- <-. exists []. split; [rewrite app_nil_r; reflexivity|]. split; [constructor|apply suffix_refl].
 Qed.
 
+Scheme succ_mind := Induction for succ Sort Prop
+  with succ_many_mind := Induction for succ_many Sort Prop.
+
+(** what a successful run leaves is a suffix of its input *)
+Lemma succ_suffix : forall e s t r, succ e s t r -> suffix_of r s.
+Proof.
+  apply (succ_mind (fun e s t r _ => suffix_of r s) (fun e s ts r _ => suffix_of r s)); intros; subst;
+    try (eexists; reflexivity); try assumption; try (eapply suffix_trans; eassumption).
+  - apply suffix_refl.
+  - eexists. symmetry. apply firstn_skipn.
+  - apply suffix_refl.
+Qed.
+
+Lemma suffix_length (r s : str) : suffix_of r s -> length r <= length s.
+Proof. intros [c ->]. rewrite app_length. lia. Qed.
+
 (** the XML grammar does not use separated_list; the inversion is stated for such grammars *)
 Fixpoint nosep (e : pexpr) : bool :=
   match e with
